@@ -56,3 +56,21 @@ Corollary withdraw_norem_only_flashloan_or_empty w a b n all w' :
   exists ac3, nth_acct w' a = Ok ac3 /\
     (aflag ac3 ACCOUNT_IN_FLASHLOAN = true \/ existsb bl_active (ha_la ac3) = false).
 Proof. intros H. destruct (withdraw_norem_verdict _ _ _ _ _ _ H) as (ac3 & H1 & H2). exists ac3. split; [exact H1 | apply norem_check_inv; exact H2]. Qed.
+
+(* a classic liquidation sent without anybody's risk accounts never succeeds: either the liquidatee has an active balance
+   (the engine cannot load it) or it has none (then it has no debt in the liability bank either) *)
+Theorem liquidate_norem_never_succeeds w r e ab lb n w' : h_liquidate_norem w r e ab lb n = Ok w' -> False.
+Proof.
+  unfold h_liquidate_norem, h_liquidate_gen. intros H.
+  apply bind_ok in H as (ha & _ & H). apply bind_ok in H as (hl & _ & H).
+  apply bind_ok in H as (u1 & _ & H). apply bind_ok in H as (u2 & _ & H). apply bind_ok in H as (u3 & _ & H).
+  apply bind_ok in H as (ee & _ & H). apply bind_ok in H as (er & _ & H).
+  apply bind_ok in H as (u4 & _ & H). apply bind_ok in H as (u5 & _ & H). apply bind_ok in H as (u6 & _ & H).
+  apply bind_ok in H as (u7 & _ & H). apply bind_ok in H as (u8 & _ & H). apply bind_ok in H as (u9 & _ & H).
+  apply bind_ok in H as (u10 & _ & H). apply bind_ok in H as (u11 & _ & H).
+  apply bind_ok in H as (ba1 & _ & H). apply bind_ok in H as (bl1 & _ & H).
+  apply bind_ok in H as (u12 & _ & H). apply bind_ok in H as (ps & Hps & H).
+  apply bind_ok in H as ([[ph x] y] & Hpre & _).
+  unfold positions_norem in Hps. destruct (existsb bl_active (ha_la (sort_acct ee))); [discriminate|].
+  apply Ok_inj in Hps. subst ps. unfold pre_liquidation in Hpre. cbn in Hpre. discriminate.
+Qed.
